@@ -22,7 +22,8 @@ for c in cases:
     if len(l) > 20000:
         continue
     o1 = impl.run(l)
-    o2 = impl.run_alt(l) if mode == "alt" else impl.run_thread(l) if mode == "thread" else impl.run_copy(l, mode)
+    o2 = impl.run_alt(l) if mode == "alt" else impl.run_thread(l) if mode == "thread" else impl.run_mut(l) if mode == "mut" \
+        else impl.run_fork(l) if mode == "fork" else impl.run_copy(l, mode)
     if o1 != o2:
         try:
             msg = mod.oracle(full, o2)
